@@ -13,20 +13,21 @@ PID = 'C12'
 SHARDS = {'quick': 4, 'thorough': 16}
 RULE = ('Generated (Domain via dr|dk, length 1-64 [thorough 1-512]; value table incl. denormals, -0.0, 1e+-300; input kind list / '
         'ndarray / one-column file / two-column file written with repr precision; k column exact, or shifted / rescaled / single-point '
-        'perturbed by <=0.1x or >=10x numpy.allclose tolerance (atol 1e-8 + rtol 1e-5 |k|), or truncated / extended by 1..3 rows; value '
+        'perturbed by <=0.1x or >=10x numpy.allclose tolerance (atol 1e-8 + rtol 1e-5 |k|), or every point perturbed independently (<=0.5x its own tolerance, '
+        'with 0-2 points at 2..10x theirs), or truncated / extended by 1..3 rows; value '
         'length equal / shorter / longer). Oracle: matching -> calculate(k) returns the table bit-for-bit, in order, not sharing memory '
         'with the caller array and unaffected by later mutation of it; PRISM.omega = table * site density bit-for-bit. Mismatching -> '
         'calculate raises (array input, two-column file) or createPRISM / first cost raises (one-column file); never an omega from '
         'mismatched data. Non-trivial = domain length >= 2 and values not constant; distinct = spec hash.')
 ASSUMPTIONS = ['values and k are finite floats; files contain plain whitespace separated numbers without comments',
-               'perturbations of the k column are never borderline: <= 0.1x or >= 10x the allclose tolerance',
+               'perturbations of the k column are never borderline: <= 0.5x or >= 2x the allclose tolerance of the point (<= 0.1x / >= 10x for the uniform variants)',
                'a grid whose point count differs from length (a Domain defect judged by C07) is counted and skipped']
 ATOL, RTOL = 1e-8, 1e-5
 
 
 def spec_strategy(max_len):
     val = st.one_of(specs.fl(-5, 50), specs.fl(0, 2), specs.signed(-300, 300), st.sampled_from([0.0, -0.0, 5e-324, 1e300, -1e300, 1.0]))
-    kinds = ['exact', 'exact', 'shifted', 'rescaled', 'single', 'shifted', 'rescaled', 'single', 'truncated', 'extended']
+    kinds = ['exact', 'exact', 'shifted', 'rescaled', 'single', 'shifted', 'rescaled', 'single', 'truncated', 'extended', 'multi', 'multi', 'multi']
     kvar = st.builds(lambda how, mag, big, idx, sgn, m: {'kind': how, 'mag': mag, 'big': big, 'idx': idx, 'sign': sgn, 'm': m},
                      st.sampled_from(kinds), specs.fl(0.0, 1.0), st.sampled_from([True, False]), st.integers(0, 10 ** 6),
                      st.sampled_from([-1, 1]), st.integers(1, 3))
@@ -68,6 +69,18 @@ def _perturbed_k(spec, k):
     factor = (10.0 + 90.0 * kv['mag']) if kv['big'] else 0.1 * kv['mag']
     delta = kv['sign'] * factor * tol
     out = k.copy()
+    if kind == 'multi':
+        # every point perturbed independently: "small" points by up to 0.5x their own tolerance, 0-2 "big" points by 2..10x
+        # theirs (big ones preferably at low k, where the tolerance is smallest); matches iff there is no big point
+        g = np.random.Generator(np.random.PCG64(kv['idx']))
+        f = g.uniform(0.0, 0.5, len(k)) * g.choice([-1.0, 1.0], len(k))
+        nbig = int(g.integers(0, 3)) if kv['big'] else 0
+        where = []
+        for _ in range(nbig):
+            i = int(g.integers(0, max(1, len(k) // 4))) if g.random() < 0.7 else int(g.integers(0, len(k)))
+            f[i] = g.uniform(2.0, 10.0) * g.choice([-1.0, 1.0])
+            where.append(i)
+        return k + f * tol, len(where) == 0
     if kind == 'shifted':
         # constant absolute shift sized by the tolerance at the smallest k (the tolerance grows with k): a big shift exceeds
         # the tolerance there, a small one stays below it everywhere
@@ -124,7 +137,7 @@ class Tabulated(Sub):
         vals = _values(spec, nval)
         len_ok = (nval == n)
         match = k_ok and len_ok and (kcol is None or len(kcol) == n)
-        out.label('source=' + source, 'k=' + (spec['kvar']['kind'] + ('-big' if spec['kvar'].get('big') and spec['kvar']['kind'] in ('shifted', 'rescaled', 'single') else '') if has_k else 'none'),
+        out.label('source=' + source, 'k=' + (spec['kvar']['kind'] + ('-big' if spec['kvar'].get('big') and spec['kvar']['kind'] in ('shifted', 'rescaled', 'single', 'multi') else '') if has_k else 'none'),
                   'match' if match else 'mismatch', 'vlen%+d' % (nval - n))
         out.nontrivial = n >= 2 and len(set(vals.tolist())) > 1
         tmp = None
